@@ -129,6 +129,18 @@ def run(ctx):
     fe = [c for c in [x for x in walk_body_shallow(sba.body) if isinstance(x, ast.Call)] if call_name(c) == "extend"]
     zv = [unparse(e) for e in zl[0].stmt.target.elts] if zl else []
     ok = len(fe) == 1 and isinstance(fe[0].args[0], ast.ListComp) and zv and norm(fe[0].args[0].generators[0].iter) == zv[1]
+    if ok:
+        # recorded for EVERY failed result: the only condition the statement may depend on is the result's own flag
+        en = cf.containing(fe[0])[0]
+        flagv = unparse(zl[0].stmt.target.elts[0].elts[0]) if isinstance(zl[0].stmt.target.elts[0], ast.Tuple) else None
+        lbody = cf.reach([zl[0].id], avoid=[t for t, lab in cf.succ[zl[0].id] if lab == ("iter", False)])
+        deps = sorted(norm(t.stmt.test) for t, lab in cf.control_deps_transitive(en.id, within=lbody) if t.kind == "test")
+        ok = flagv is not None and deps in (["not %s" % flagv], ["%s is False" % flagv], ["%s" % flagv])
+        r.check(ok, "%s#failed-result-always-recorded" % sba.qname,
+                "recording a failed request's payloads depends on %s, not only on the result's own success flag" % deps, where(sba, fe[0]),
+                "acks=0 (no reply expected) and the broker request fails: nothing is reported failed, the producer sees an empty "
+                "result and reports success although nothing was handed to a connection")
+        ok = True
     r.check(ok, "%s#all-payloads-of-failed-request" % sba.qname, "not every payload of a failed request is recorded as failed",
             where(sba, fe[0] if fe else sba.node), "some payloads are neither answered nor reported failed")
     rs = [x for x in walk_body_shallow(sba.body) if isinstance(x, ast.Raise) and isinstance(x.exc, ast.Call) and call_name(x.exc) == "FailedPayloadsError"]
@@ -226,6 +238,10 @@ MUTANTS = [
      "new": "            inFlight.append(d)\n            if expectResponse:\n                payloadsList.append(payloads)", "expect": "C07.R3"},
     {"id": "result-in-answer-order", "file": "client.py", "old": "responses = [acc[k] for k in original_keys if k in acc] if acc else []",
      "new": "responses = list(acc.values())", "expect": "C07.R4"},
+    {"id": "noreply-skips-failure-accounting", "file": "client.py",
+     "old": "            if not success:\n                # The brokerclient deferred was errback()'d:\n                #   The send failed, or this request was cancelled (by timeout)\n                log.debug(\"%r: request:%r to broker failed: %r\", self, payloads, response)\n                failed_payloads.extend([(p, response) for p in payloads])\n                continue\n            if not expectResponse:\n                continue\n",
+     "new": "            if not expectResponse:\n                continue\n            if not success:\n                # The brokerclient deferred was errback()'d:\n                #   The send failed, or this request was cancelled (by timeout)\n                log.debug(\"%r: request:%r to broker failed: %r\", self, payloads, response)\n                failed_payloads.extend([(p, response) for p in payloads])\n                continue\n",
+     "expect": "C07.R5", "note": "seeded C01-1"},
     {"id": "failed-first-payload-only", "file": "client.py", "old": "failed_payloads.extend([(p, response) for p in payloads])",
      "new": "failed_payloads.extend([(p, response) for p in payloads[:1]])", "expect": "C07.R5"},
     {"id": "coordinator-none-not-raised", "file": "client.py",
